@@ -11,7 +11,7 @@ Definition cfgX : cfg := mkCfg 1000 0 100 1000 1 0 true false.
 (* the mixed history of C01Spec.v (two clients, logins, user-wide logout and
    refresh, purge, cache loss, restart, expiry, destroy) is admissible *)
 Example hist_mix_admissible :
-  forallb (c01_hop false) hist_mix = true /\ codec_fixed cfgX hist_mix = true /\ wf_hist cfgX hist_mix = true.
+  forallb c01_hop hist_mix = true /\ codec_fixed cfgX hist_mix = true /\ wf_hist cfgX hist_mix = true.
 Proof. vm_compute. repeat split. Qed.
 
 Example hist_mix_safe : g_run [] hist_mix (run cfgX hist_mix) = true.
@@ -26,12 +26,29 @@ Definition hist_cfg : list hop :=
    rq 1 true [SGet 1]].
 
 Example hist_cfg_admissible :
-  forallb (c01_hop false) hist_cfg = true /\ codec_fixed cfgN hist_cfg = true /\
+  forallb c01_hop hist_cfg = true /\ codec_fixed cfgN hist_cfg = true /\
   map ob_res (run cfgN hist_cfg) = [RSess; RSess; RSess; RVoid; RSess; RVoid; RErr EExpiredID; RSess].
 Proof. vm_compute. repeat split. Qed.
 
 Example hist_cfg_safe : g_run [] hist_cfg (run cfgN hist_cfg) = true.
 Proof. apply c01_safety_codec_fixed; apply hist_cfg_admissible. Qed.
+
+(* GetAndDelete in handler scripts (cache size 1, rotation on every request):
+   the value is handed out once and stays gone, also after cache loss and
+   after a restart *)
+Definition hist_gd : list hop :=
+  [rq 1 true [SSet 1 2; SSet 3 4]; rq 2 true [SSet 1 5]; rq 1 false [SGetDel 1; SGetDel 1]; HDropCache;
+   rq 1 false [SGet 1; SGet 3]; rq 2 false [SGetDel 1]; HRestart; rq 2 false [SGet 1]].
+
+Example hist_gd_admissible :
+  forallb c01_hop hist_gd = true /\ codec_fixed cfgX hist_gd = true /\
+  map ob_script (run cfgX hist_gd) =
+    [[SOk; SOk]; [SOk]; [SVal (Some 2%N); SVal None]; []; [SVal None; SVal (Some 4%N)];
+     [SVal (Some 5%N)]; []; [SVal None]].
+Proof. vm_compute. repeat split. Qed.
+
+Example hist_gd_safe : g_run [] hist_gd (run cfgX hist_gd) = true.
+Proof. apply c01_safety_codec_fixed; apply hist_gd_admissible. Qed.
 
 (* the readable form at a concrete point: after these steps the ghost holds
    client 1's data and user, client 2's exclusive login of the same user has
@@ -42,7 +59,7 @@ Definition hist_pre : list hop :=
 Definition req_next : reqstep := mkReqStep 1 PJar false (AOther 0) 7 [SGet 1] [] [] None.
 
 Example step_spec_instance :
-  forallb (c01_hop false) (hist_pre ++ [HReq req_next]) = true /\
+  forallb c01_hop (hist_pre ++ [HReq req_next]) = true /\
   codec_fixed cfgX (hist_pre ++ [HReq req_next]) = true /\
   g_get (g_after [] hist_pre (run cfgX hist_pre)) 1 = Some ([(1, 2)%N], None) /\
   g_get (g_after [] hist_pre (run cfgX hist_pre)) 2 = Some ([(1, 3)%N], Some 5%N) /\
